@@ -379,5 +379,31 @@ func TestC07_Collisions(t *testing.T) {
 			c.Fail(t, kindOf(f), cs, sh.want, r, f)
 		}
 	}
-	c.ExhaustivePart("8 hand-written collision shapes + 4 shapes with arguments that name each other")
+	// a component is a block: what it (or a slot body evaluated in it) assigns
+	// is gone when the use ends, with and without an argument object
+	for i, sh := range []struct {
+		page string
+		w    want
+	}{
+		{`{{ n = 1 }}@component("setter");[{{ n }}]`, want{St: "ok", Kind: "text", S: "<set 5>;[1]"}},
+		{`{{ n = 1 }}@component("setter", {});[{{ n }}]`, want{St: "ok", Kind: "text", S: "<set 5>;[1]"}},
+		{`{{ n = 1 }}@component("setter", {other: 2});[{{ n }}]`, want{St: "ok", Kind: "text", S: "<set 5>;[1]"}},
+		{`@component("setter");[{{ n }}]`, want{St: "error", Why: "n is not visible after the component"}},
+		{`@component("holder")
+@slot{{ v = "x" }}{{ v }}@end
+@end;{{ v = 1 }}[{{ v }}]`, want{St: "ok", Kind: "text", S: "<x>;[1]"}},
+		{`@each(k in [1, 2])@component("setter");{{ k }}@end`, want{St: "ok", Kind: "text", S: "<set 5>;1<set 5>;2"}},
+		{`@component("holder", {a: 1})
+@slot{{ w = 2 }}{{ w }}@end
+@end;[{{ w }}]`, want{St: "error", Why: "w is not visible after the component"}},
+	} {
+		src := map[string]string{"setter": "<set {{ n = 5 }}{{ n }}>", "holder": "<@slot>", "page": sh.page}
+		cs := treeCase{Files: src, Dir: "t", Ext: ".tw", Page: "page", Want: sh.w, Note: fmt.Sprintf("component-scope-%d", i)}
+		c.CaseEnum(true, "collision:component-is-a-block")
+		c.Sample(cs.sample())
+		if r, f := runTreeCase(c, cs); f != "" {
+			c.Fail(t, kindOf(f), cs, sh.w, r, f)
+		}
+	}
+	c.ExhaustivePart("8 hand-written collision shapes + 4 shapes with arguments that name each other + 7 component-scope shapes")
 }
